@@ -48,7 +48,8 @@ def nth_perm(n, idx):
 
 
 def perm_case(n, i, j):
-    return ["ins %d" % k for k in nth_perm(n, i)] + ["rem %d" % k for k in nth_perm(n, j)]
+    return (["ins %d" % k for k in nth_perm(n, i)] + ["reins %d" % k for k in range(1, n + 1)] +
+            ["rem %d" % k for k in nth_perm(n, j)])
 
 
 def run_text(ck, cmd, text, timeout=3000):
@@ -245,6 +246,13 @@ def pattern_case(ins, rem, probe_every):
         ops.append("ins %d" % k)
         if probe_every and t % probe_every == probe_every - 1:
             ops.append("find %d" % k)
+    # insert present keys again with their own, linked node objects: all of them for small
+    # runs, ~60 spread over the key space (root region, inner nodes, leaves) for large ones
+    n = len(ins)
+    stepk = 1 if n <= 300 else max(1, n // 60)
+    for k in sorted(ins)[::stepk]:
+        ops.append("reins %d" % k)
+    ops.append("reins %d" % (max(ins) + 1))
     ops.append("count")
     ops.append("walk pre")
     ops.append("walk post")
@@ -304,6 +312,14 @@ def gen_random(rng, nops, krange, stats, stride=1, offset=0, phases=((1.0, 42),)
             else:
                 stats["rem_absent"] += 1
             ops.append("rem %d" % key(k))
+        elif r < 85:
+            # re-insert with the node object that is linked for the key (absent key: nothing)
+            if present and rng.chance(85, 100):
+                k = rng.choice(present)
+            else:
+                k = rng.below(krange)
+            stats["reins_present" if k in pos else "reins_absent"] += 1
+            ops.append("reins %d" % key(k))
         elif r < 90:
             ops.append("find %d" % key(rng.below(krange)))
             stats["find"] += 1
@@ -367,10 +383,12 @@ def run(ck):
     ]
     ck.cov["rule"] = (
         "(1) perms: every insertion order x every removal order of the keys 1..n (n<=6 quick, n<=7 thorough, "
-        "n=8 sampled blocks), executed inside harness and driver and compared by hash of all per-op output "
+        "n=8 sampled blocks; after each insertion order every key is inserted again with its own linked node "
+        "object), executed inside harness and driver and compared by hash of all per-op output "
         "lines, each pair is one distinct case; (2) ascending/descending/alternating insertion x "
         "ascending/descending/alternating/inside-out removal runs of N keys; (3) random histories (small dense, "
-        "medium, large) with ~30% no-op inserts/removes, finds, 3 walk orders, count, destroy. A case is "
+        "medium, large) with ~30% no-op inserts/removes, re-inserts of a present key with a fresh node AND with "
+        "the node object already linked for it, finds, 3 walk orders, count, destroy. A case is "
         "non-trivial when it links at least one node; distinct = distinct op sequence (hashed).")
     ck.assumptions += [
         "release_cb is non-NULL (aatree_destroy calls it unconditionally) and frees/poisons the node",
@@ -435,7 +453,8 @@ def run(ck):
         return finish_counts(ck)
 
     # 3. random histories
-    stats = {k: 0 for k in ("ins_new", "ins_dup", "rem_present", "rem_absent", "find", "walk", "count",
+    stats = {k: 0 for k in ("ins_new", "ins_dup", "rem_present", "rem_absent", "reins_present", "reins_absent",
+                            "find", "walk", "count",
                             "destroy", "max_size")}
     t0 = time.time()
     rcases = random_cases(ck, rng, stats)
@@ -446,7 +465,7 @@ def run(ck):
     run_cases_parallel(ck, hcmd, dcmd, small, "random")
     ck.cov["stage_s"]["random"] = round(time.time() - t0, 1)
     ck.cov["op_histogram"] = stats
-    noop = stats["ins_dup"] + stats["rem_absent"]
+    noop = stats["ins_dup"] + stats["rem_absent"] + stats["reins_present"] + stats["reins_absent"]
     mut = noop + stats["ins_new"] + stats["rem_present"]
     ck.cov["noop_fraction_of_mutating_ops"] = round(noop / max(1, mut), 3)
     ck.sample({"random": small[-1][:40]})
